@@ -90,6 +90,112 @@ CLAIMS['C12'] = {
     'technique': 'Lean 4 refinement proof of the lower allocator (sequential semantics, invariant + per-function specifications by induction over the loops) + differential runs on crafted tree patterns',
 }
 
+PART = ' PARTIAL (see evidence.partial and DESIGN.md): '
+CLAIMS['C01'] = {
+    'text': ('Theorems seq_block_fresh / seq_targeted_exact / fresh_disjoint_from_allocated: in every sequential history a successful '
+             'allocation returns an aligned in-range block none of whose frames was allocated (hence disjoint from every block handed out '
+             'and not freed), a targeted one exactly the requested frame, and afterwards exactly its frames are additionally allocated.'
+             + PART + 'the statement over all interleavings is not a theorem; the concurrent part is explored by scheduler-controlled runs of the '
+             'real threads (preemption-bounded DFS + random schedules) whose event traces are replayed on the Lean interleaving semantics.'),
+    'note': TB,
+    'technique': 'Lean 4 refinement proof (sequential) + trace co-simulation of real threads against the Lean single-access interleaving semantics with an ownership oracle',
+}
+CLAIMS['C02'] = {
+    'text': ('Theorems lower_put_refines / lower_getAt_refines / lower_get_refines / put_frees_exactly / get_allocates_exactly: for every '
+             'geometry, frame count and memory satisfying the lower invariant, Lower::put succeeds iff the ownership specification allows the '
+             'free and then frees exactly those frames (splitting a whole huge frame), Lower::get_at succeeds iff the block is entirely free, '
+             'the search allocates an entirely free aligned block or changes nothing; failures leave the whole memory unchanged; the invariant '
+             'is preserved; nothing panics.' + PART + 'the upper-level wrappers (tree/slot counters) are carried by the byte-level correspondence '
+             'with its ownership oracle, not yet by a theorem.'),
+    'note': TB + ' Depends on the C23 theorem (bv_decide axioms).',
+    'technique': 'Lean 4 refinement proof of the lower allocator against a frame-ownership specification + sequential differential with shadow ownership model',
+}
+CLAIMS['C03'] = {
+    'text': ('Theorem k1_spin_panics REFUTES the property for the unchanged code: a kernel-evaluated schedule of the interleaving semantics in '
+             'which two threads free parts of one whole huge frame and the loser exhausts RETRIES and panics "Exceeding retries" (known finding K1, '
+             'replayed on the real threads by the co-simulation). Theorems seq_no_panic_lower / held_free_succeeds_seq: sequentially no lower-level '
+             'site panics and frees of held blocks succeed.' + PART + 'panic-freedom of the other sites under all interleavings is explored '
+             '(DFS/random schedules with panic capture and the held-free oracle), not proved.'),
+    'note': TB + ' Depends on the C23 theorem (bv_decide axioms).',
+    'technique': 'Lean 4: refutation by a kernel-checked schedule (decide) + sequential panic-freedom theorems; trace co-simulation with known-finding matching',
+}
+CLAIMS['C04'] = {
+    'text': ('Theorems huge_free_exact / huge_entirely_free_iff / stats_at_huge_exact: under the lower invariant the counter an entry reports is '
+             'the number of free frames of its huge frame in the allocation state, it is the full counter iff every frame is free, and '
+             'stats_at(frame, HUGE_ORDER) returns exactly these numbers without modifying anything.' + PART + 'fast count = exact - offline and '
+             'validate() need the upper invariant; the end-of-interleaving statement needs the concurrent invariants: both are carried by the '
+             'accounting oracle of the sequential and concurrent correspondence.'),
+    'note': TB + ' Depends on the C23 theorem (bv_decide axioms).',
+    'technique': 'Lean 4 theorems from the lower invariant + accounting oracle in the sequential differential and at quiescent ends of co-simulated interleavings',
+}
+CLAIMS['C05'] = {
+    'text': ('Theorems recover_marker / recover_counter / recover_fixpoint_act about the per-entry decision of Lower::recover (the model of recover '
+             'is written over this pure function): a whole-huge marker survives and its bitfield is cleared; every other entry is set to the '
+             'number of zero bits of its bitfield; consistent entries are not written.' + PART + 'the lift to the recover loop and to every crash '
+             'point of every interleaving is not a theorem; crash points before atomic writes of explored schedules are recovered with the real '
+             'code and checked (held blocks allocated and freeable, accounting consistent, only in-flight frames missing).'),
+    'note': TB + ' A crash is modelled as loss of everything but the lower buffer at an atomic-access boundary.',
+    'technique': 'Lean 4 theorems about the recovery decision logic + crash-point oracle inside the trace co-simulation + sequential differential of recover',
+}
+CLAIMS['C06'] = {
+    'text': ('Theorems free_all_sum / free_all_entry_le / free_all_full_iff / reserve_all_split: for every frame count and huge-frame size the '
+             'counters free_all writes never exceed a huge frame, add up to exactly the managed frames, are full iff the huge frame lies inside '
+             'the range; allocate-all marks exactly the huge frames inside the range.' + PART + 'that the init programs write these values and the '
+             'matching bitfields (establishing the lower invariant) is carried by the byte-level correspondence over boundary-dense frame counts '
+             'in 5 geometries with full exhaust/free cycles.'),
+    'note': TB,
+    'technique': 'Lean 4 arithmetic theorems (all frame counts) + init-cycle differential over boundary-dense frame counts',
+}
+CLAIMS['C09'] = {
+    'text': ('Theorems lower_put_total / lower_getAt_total / lower_get_total / check_total: under the lower invariant no lower-level call panics '
+             '(roll-back sites, asserts, index bounds, retry exhaustion are unreachable sequentially) for any order, frame and geometry, and the '
+             'argument check is total.' + PART + 'upper-level counter arithmetic and construction are carried by the correspondence (every call under '
+             'catch_unwind in an overflow-checked build, model comparison of every answer).'),
+    'note': TB + ' Depends on the C23 theorem (bv_decide axioms).',
+    'technique': 'Lean 4 totality theorems for the lower allocator + sequential differential with panic capture',
+}
+CLAIMS['C10'] = {
+    'text': ('Theorems search_visits_all / searchIdx_nat / best_nonempty / steal_succeeds / steal_takes: the tree search order is a permutation '
+             'that reaches every tree for every start, a remembered candidate is returned, and stealing from an unreserved tree with enough '
+             'frames succeeds and takes exactly that many.' + PART + 'the composition through search_and_reserve / steal / get_fallback is carried by '
+             'the drain oracle of the correspondence.'),
+    'note': TB,
+    'technique': 'Lean 4 theorems about the search order and tree steps + drain-probe differential with shadow oracle',
+}
+CLAIMS['C11'] = {
+    'text': ('Theorems sync_exact / sync_boundary / sync_then_get: Tree::sync_steal succeeds iff the tree is reserved and holds at least the '
+             'minimum, takes exactly the whole counter, and succeeds at the boundary free = min; after a sync the slot holds its own plus the '
+             'tree frames.' + PART + 'the retry composition inside get_local is carried by the single-slot differential with the "fails only '
+             'when nothing is free" oracle.'),
+    'note': TB,
+    'technique': 'Lean 4 theorems about the synchronisation step + single-slot differential',
+}
+CLAIMS['C14'] = {
+    'text': ('Theorems trees_stats_partition / trees_stats_go / class_sum_addClass: for every tree table (classes < 8, counters within a tree) the '
+             'per-class rows produced by Trees::stats sum to trees*TREE_FRAMES (free+allocated) and their free counts to the total.' + PART +
+             'the slot correction of tree_stats and the relation to the allocation state are carried by the correspondence (per-class sums checked '
+             'after every call).'),
+    'note': TB,
+    'technique': 'Lean 4 induction over the tree table + sequential differential with partition oracle',
+}
+CLAIMS['C15'] = {
+    'text': ('Theorems change_only_matching / change_reserved_never / offline_succeeds / offline_free_tree / online_restores / online_nonempty_skips / '
+             'offline_blocks_steal / offline_blocks_reserve / offline_blocks_sync: a change touches only an unreserved tree that matches, Offline '
+             'sets the counter to 0, Online sets it to exactly the fetched lower count and only on a tree with counter 0, and a tree with counter 0 '
+             'is skipped by steal, reserve and sync.' + PART + 'allocator-level statements (which count is fetched, statistics) are carried by the '
+             'change-heavy differential with the offline oracle.'),
+    'note': TB + ' Model deviation recorded in DESIGN.md: Online reads the lower counters before the update closure.',
+    'technique': 'Lean 4 theorems about Tree::change and the tree steps + change-heavy sequential differential',
+}
+CLAIMS['C21'] = {
+    'text': ('Theorems solo_terminates / get_solo_terminates / put_solo_terminates / drain_solo_terminates / solo_step_bound_upd: from every '
+             'intermediate thread state and every memory, a call of the model that runs alone finishes (programs are finite trees of accesses; the '
+             'only waiting loop has a retry budget) and an update loop needs at most two further accesses.' + PART + 'an explicit uniform numeric step '
+             'bound is measured by freeze experiments on the real threads, not proved.'),
+    'note': TB,
+    'technique': 'Lean 4 termination theorem over the interleaving semantics + freeze experiments under the deterministic scheduler',
+}
+
 _PENDING = 'claimed by DESIGN.md; theorem module not yet landed in this revision (work in progress, see DESIGN.md §10 staging)'
 NOT_APPLICABLE = {
     'C22': ('the C implementation is not in this tree (llc/ is an empty `update = none` submodule, no network); '
